@@ -48,13 +48,24 @@ FOREIGN = 'Xx'          # an element no block atom can have (block elements are 
 MAX_ATOMS = {'quick': 40, 'thorough': 70}
 
 # Size bounds (number of block atoms) per presentation.  They exist because the
-# cost of the largest-common-subgraph search in make_reference grows
-# exponentially when the names give it no hint (measured, see notes/C04.md);
-# cases are bounded by size, never by time.
-BOUND_FRESH_ALL = {'quick': 14, 'thorough': 16}      # every atom renamed / names absent / swapped at random
-BOUND_FRESH_HEAVY = {'quick': 20, 'thorough': 24}    # all heavy atoms renamed, hydrogens keep their names
-BOUND_SAME_ELEMENT = 12                              # extras of an element of the block (brute-force reference)
-BOUND_SECOND = 12                                    # size of the second residue
+# cost of the largest-common-subgraph search in make_reference explodes when
+# the names give it no hint (measured, see notes/C04.md); cases are bounded by
+# size, never by time.
+BOUND_FULL = {'quick': 14, 'thorough': 15}      # any renaming: all atoms fresh / swapped / degenerate names
+BOUND_HEAVY = {'quick': 30, 'thorough': 35}     # all heavy atoms renamed while hydrogens keep their names
+BOUND_SAME_ANY = 8                              # extras of an element of the block, any presentation
+BOUND_SAME_CANONICAL = 24                       # ... with canonical names, no removal, any order
+BOUND_SECOND = 12                               # size of the second residue
+
+# charmm blocks of 15-70 atoms on which RepairGraph needs more than ~1 s (up to
+# minutes) already for canonical names in a permuted order (measured 2026-10,
+# 3 random orders each for: order only / hydrogens renamed / 3 atoms renamed).
+# Mostly fused or symmetric ring systems and long chains.  Not in the domain.
+SLOW_BLOCKS = frozenset(('charmm', name) for name in """
+14MN 22BPY 23MN ACRD ADAM ATP BAM1 BCA BF6 BF7 BGAU BGCU BHWG BPET BPIP BPSP C36 C37 C3C CA CDCA CPEN CPES
+CRBZ CYSF CYSG CYSP DCA FEOZ FETZ FLRN FRET GLYM GTPG HEXD INDE LCA NAFT NORB PMHA PNTM PXYL RTAL RTOL SM059
+SM097 SM132 SM153 SM188 UDCA WEI1 WEI2 WEI3
+""".split())
 
 
 # ---------------------------------------------------------------------------
@@ -135,6 +146,10 @@ def preload():
                 continue
             if any(not isinstance(an, str) for an in names) or len(set(names)) != len(names):
                 continue
+            if (ffname, bname) in SLOW_BLOCKS:
+                continue
+            if {block.nodes[node].get('resname') for node in block.nodes} != {bname}:
+                continue   # gromos NAD: its atoms carry resname NADP, repair renames the residue
             _INFO[(ffname, bname)] = BlockInfo(ffname, bname, block)
     for tier, bound in MAX_ATOMS.items():
         _ELIGIBLE[tier] = {ffname: [key for key in sorted(_INFO) if key[0] == ffname and _INFO[key].n <= bound]
@@ -461,7 +476,7 @@ def check_residue(rec, out, members, all_in, label):
         raise HarnessError('%s: valid match of %d atoms found, the reference maximum is %d' % (label, n_in - len(flagged), mcs))
     if len(members) != n_in + info.n - mcs:
         raise Violation('atom-count', '%s: %d atoms after repair, expected %d' % (label, len(members), n_in + info.n - mcs))
-    degree = {k: len(out[k]) for k in members}
+    degree = {k: sum(1 for nb in out[k] if nb in members) for k in members}   # bonds inside the residue
     return {
         'flagged': len(flagged), 'added': len(added), 'brute': brute, 'mcs': mcs, 'n_in': n_in,
         'better-than-lower': mcs > n_in - rec['n_extras'],
@@ -547,3 +562,235 @@ def run(case):
     classes.add('size-%s' % ('1-3' if info.n < 4 else '4-14' if info.n <= 14 else '15-24' if info.n <= 24 else '25-40' if info.n <= 40 else '41-70'))
     nontrivial = info.n >= 4 and (heavy_renamed or reordered)
     return Outcome(sorted(classes), nontrivial)
+
+
+# ---------------------------------------------------------------------------
+# generator
+
+def _intensity(tier, info):
+    if info.n <= BOUND_FULL[tier]:
+        return 'full'
+    if info.n <= BOUND_HEAVY[tier]:
+        return 'heavy'
+    return 'mild'
+
+
+def _pres_strategy(info, intensity):
+    nslots = info.n + 3
+    slots = list(range(nslots))
+    hyd = [i for i in range(info.n) if info.elements[i] == 'H']
+    heavy = [i for i in range(info.n) if info.elements[i] != 'H']
+    extras = list(range(info.n, nslots))
+    order = st.one_of(st.permutations(slots), st.permutations(slots), st.permutations(slots),
+                      st.just(slots), st.just(slots[::-1]))
+
+    def subset(pool, most):
+        if not pool:
+            return st.just([])
+        return st.lists(st.sampled_from(pool), unique=True, min_size=1, max_size=min(most, len(pool))).map(sorted)
+
+    few = subset(slots[:info.n], 6)
+    if intensity == 'full':
+        rename = st.one_of(st.just(slots), st.just(slots), st.just(hyd + extras), st.just(heavy + extras),
+                           subset(slots, nslots), st.just([]))
+        style = st.sampled_from(['fresh', 'fresh', 'fresh', 'swap', 'swap', 'element', 'absent', 'empty'])
+    elif intensity == 'heavy':
+        rename = st.one_of(st.just(heavy + extras), st.just(heavy), st.just(hyd + extras), few, st.just([]),
+                           subset(heavy, 3).map(lambda some: sorted(set(some) | set(hyd))))
+        style = st.sampled_from(['fresh', 'fresh', 'fresh', 'absent'])
+    elif intensity == 'mild':
+        rename = st.one_of(st.just(hyd + extras), st.just(hyd), few, st.just([]),
+                           subset(heavy, 3).map(lambda some: sorted(set(some) | set(hyd))))
+        style = st.sampled_from(['fresh', 'fresh', 'fresh', 'absent'])
+    elif intensity == 'canonical':
+        rename = st.just([])
+        style = st.just('fresh')
+    else:
+        raise HarnessError(intensity)
+    return st.fixed_dictionaries({
+        'order': order.map(list), 'namekey': st.permutations(slots).map(list), 'rename': rename, 'style': style,
+        'key0': st.sampled_from([0, 0, 1, 17]), 'keystep': st.sampled_from([1, 1, 2, 7]),
+    })
+
+
+def _max_extras(n):
+    return 3 if n <= 30 else 2 if n <= 45 else 1
+
+
+def _residue_strategy(tier, key, kind):
+    info = _INFO[key]
+    intensity = _intensity(tier, info)
+    if kind in ('same', 'remove+same') and info.n > BOUND_SAME_ANY:
+        intensity = 'canonical'
+    fields = {'ff': st.just(key[0]), 'block': st.just(key[1])}
+    if 'remove' in kind:
+        most = max(1, int(0.4 * info.n))
+        fields['remove'] = st.lists(st.integers(0, info.n - 1), unique=True, min_size=1, max_size=min(most, info.n - 1)).map(sorted)
+    if 'foreign' in kind or 'same' in kind:
+        if 'same' in kind:
+            element = st.one_of(st.integers(0, info.n - 1), st.integers(0, info.n - 1), st.just('foreign'))
+            count = 3
+        else:
+            element = st.just('foreign')
+            count = _max_extras(info.n)
+        name = st.one_of(st.none(), st.none(), st.integers(0, info.n - 1)) if intensity == 'full' else st.none()
+        extra = st.fixed_dictionaries({'at': st.integers(0, info.n + 2), 'el': element, 'name': name})
+        fields['extras'] = st.lists(extra, min_size=1, max_size=count)
+    pres = _pres_strategy(info, intensity)
+    fields['pres'] = st.tuples(pres, pres).map(list)
+    spec = st.fixed_dictionaries(fields)
+    if 'same' in kind:
+        # at least one extra of an element of the block, else it is a 'foreign' case
+        spec = spec.map(_force_same)
+    return spec
+
+
+def _force_same(spec):
+    if all(e['el'] == 'foreign' for e in spec['extras']):
+        spec['extras'][0]['el'] = spec['extras'][0]['at']
+    return spec
+
+
+KINDS = ['pure', 'pure', 'pure', 'remove', 'remove', 'foreign', 'foreign', 'remove+foreign', 'remove+foreign',
+         'same', 'remove+same']
+
+
+def _kind_pool(tier, ffname, kind):
+    keys = _ELIGIBLE[tier][ffname]
+    if kind in ('pure', 'foreign'):
+        return keys
+    connected = [k for k in keys if _INFO[k].ncomp == 1]
+    if kind in ('remove', 'remove+foreign'):
+        return [k for k in connected if _INFO[k].n >= 2]
+    if kind == 'same':
+        return [k for k in connected if 2 <= _INFO[k].n <= BOUND_SAME_CANONICAL]
+    if kind == 'remove+same':
+        return [k for k in connected if 2 <= _INFO[k].n <= BOUND_SAME_ANY]
+    raise HarnessError(kind)
+
+
+def _strategy(tier):
+    preload()
+
+    def for_choice(choice):
+        ffname, kind, two = choice
+        pool = _kind_pool(tier, ffname, kind)
+        if kind == 'same':
+            # half of the cases on the small blocks where every presentation is affordable
+            small = [k for k in pool if _INFO[k].n <= BOUND_SAME_ANY]
+            block = st.one_of(st.sampled_from(small), st.sampled_from(pool)) if small else st.sampled_from(pool)
+        else:
+            block = st.sampled_from(pool)
+        residue = block.flatmap(lambda key: _residue_strategy(tier, tuple(key), kind))
+        if not two:
+            second = st.none()
+        else:
+            small = [k for k in _ELIGIBLE[tier][ffname] if _INFO[k].n <= BOUND_SECOND]
+            second_kind = st.sampled_from(['pure', 'pure', 'remove', 'foreign'])
+
+            def second_residue(pair):
+                key, skind = pair
+                if skind == 'remove' and (_INFO[key].ncomp != 1 or _INFO[key].n < 2):
+                    skind = 'pure'
+                return _residue_strategy(tier, key, skind)
+            second = st.fixed_dictionaries({
+                'residue': st.tuples(st.sampled_from(small), second_kind).flatmap(second_residue),
+                'ident': st.sampled_from(['resid', 'resid', 'chain', 'icode', 'resid-back']),
+                'interleave': st.sampled_from([False, False, 'first-first', 'second-first']),
+                'link': st.tuples(st.integers(0, 80), st.integers(0, 80)).map(list),
+            })
+        return st.fixed_dictionaries({'residue': residue, 'second': second, 'include_graph': st.booleans()})
+
+    choice = st.tuples(st.sampled_from(['charmm', 'charmm', 'charmm', 'amber', 'gromos']),
+                       st.sampled_from(KINDS),
+                       st.sampled_from([False, False, False, False, True]))
+    return choice.flatmap(for_choice)
+
+
+# ---------------------------------------------------------------------------
+# enumeration of all eligible blocks with fixed presentations
+
+def _fixed_pres(info, intensity, variant):
+    nslots = info.n + 3
+    slots = list(range(nslots))
+    hyd = [i for i in range(info.n) if info.elements[i] == 'H']
+    heavy = [i for i in range(info.n) if info.elements[i] != 'H']
+    # a multiplicative permutation of the slots: i -> (a*i + b) mod nslots with gcd(a, nslots) = 1
+    a = next(c for c in (7, 11, 13, 17, 5, 3, 1) if np.gcd(c, nslots) == 1)
+    stride = [(a * i + 2) % nslots for i in slots]
+    if variant == 0:
+        if intensity == 'full':
+            rename = slots
+        elif intensity == 'heavy':
+            rename = heavy
+        else:
+            rename = sorted(hyd + heavy[::max(1, len(heavy) // 3)][:3])
+        return {'order': slots[::-1], 'namekey': stride, 'rename': rename, 'style': 'fresh', 'key0': 3, 'keystep': 2}
+    return {'order': stride, 'namekey': slots[::-1], 'rename': hyd, 'style': 'fresh', 'key0': 0, 'keystep': 1}
+
+
+def _enumerate(tier, shard, nshards):
+    preload()
+    import os
+    try:
+        seed = int(os.environ.get('VERIF_SEED', '1'))
+    except ValueError:
+        seed = 1
+    keys = [k for ffname in FF_NAMES for k in _ELIGIBLE[tier][ffname]]
+    stride = 4 if tier == 'quick' else 1
+    for idx, key in enumerate(keys):
+        if idx % nshards != shard:
+            continue
+        if (idx // nshards) % stride != seed % stride:
+            continue
+        info = _INFO[key]
+        intensity = _intensity(tier, info)
+        pres = [_fixed_pres(info, intensity, 0), _fixed_pres(info, intensity, 1)]
+        yield {'residue': {'ff': key[0], 'block': key[1], 'pres': pres}, 'second': None, 'include_graph': False}
+        if info.ncomp == 1 and info.n >= 3:
+            # every third atom missing, one foreign atom attached
+            remove = list(range(1, info.n, 3))[:max(1, int(0.4 * info.n))]
+            yield {'residue': {'ff': key[0], 'block': key[1], 'remove': remove,
+                               'extras': [{'at': info.n // 2, 'el': 'foreign', 'name': None}], 'pres': pres[::-1]},
+                   'second': None, 'include_graph': True}
+
+
+RULE = (
+    'Domain: the blocks of charmm, amber and gromos with 1-40 (quick) / 1-70 (thorough) atoms, unique atom names, minus 53 charmm '
+    'blocks on which the matching takes seconds to minutes even with canonical names (SLOW_BLOCKS) and gromos NAD (its atoms carry '
+    'another residue name).  "blocks": every eligible block (thorough; quick: a quarter of them, which quarter depends on VERIF_SEED) '
+    'with two fixed cases - (a) names replaced by fresh ones (all atoms for blocks <= 14/15 atoms, all heavy atoms up to 30/35 atoms, '
+    'hydrogens + 3 heavy atoms above) in reversed order on sparse keys vs. hydrogens renamed in a stride permutation; (b) every third '
+    'atom removed and one foreign atom attached.  "presentations": Hypothesis draws force field, kind (pure / removal of 1..40 % of '
+    'the atoms / 1-3 extra atoms of a foreign element / both / extras of an element of the block, with or without removal), a block '
+    'eligible for the kind, and two presentations of the residue: node order (permutation), sparse node keys, renamed subset (all, '
+    'hydrogens, heavy atoms, a few, none) and style (fresh unique names, names handed round among the chosen atoms, name = element, '
+    'attribute absent, empty string); extras are attached to any atom or to an earlier extra and may carry the name of a block atom; '
+    'in 20 % a second residue (block <= 12 atoms, own presentation) is bonded to the first, distinguished by resid, chain or insertion '
+    'code, atoms optionally interleaved.  Which renamings a block gets is bounded by its size (BOUND_*), see ASSUMPTIONS.  '
+    'Non-trivial: the block has >= 4 atoms and the first presentation renames >= 1 heavy atom or changes the atom order; distinct '
+    'by hash.  Classes: symmetric (non-trivial element-preserving automorphism, networkx VF2), symmetric-heavy (one that moves a heavy '
+    'atom), removal+extras, two-residue, extras-same-element, extra-stands-in (brute force found a larger match than residue minus extras).')
+
+ASSUMPTIONS = [
+    'the element of an input atom is the element RepairGraph derives for the block atom: the first ASCII letter of its canonical name '
+    '(add_element_attr; blocks carry no element attribute) - e.g. chlorine is "C"; an extra "foreign" atom has element "Xx" which no block atom can have',
+    'every atom has element, resname (= block name), resid, chain, position; atomname is a str, "" or absent; node keys are ints (martinize2 after PDBInput/MakeBonds)',
+    'no mutation / modification attributes (covered by C19); RepairGraph is called as run_molecule on a molecule whose force_field has the block',
+    'atoms are only removed from connected blocks and at least one atom stays: a block atom can be rebuilt only next to a known neighbour '
+    '(documented in repair_residue; "Could not reconstruct atom" is logged otherwise); extras of an element of the block likewise only on connected blocks',
+    'size bounds, because the largest-common-subgraph search is exponential when names give no hint (measured): arbitrary renaming of all atoms, '
+    'swapped or degenerate names only for blocks <= 14 (quick) / 15 (thorough) atoms; all heavy atoms renamed <= 30 / 35 atoms; larger blocks: '
+    'hydrogens and/or <= 6 atoms renamed (fresh or absent names), any order; extras of a block element: any presentation <= 8 atoms, canonical '
+    'names without removal <= 24 atoms; foreign extras: 3 up to 30 atoms, 2 up to 45, else 1; a PTM atom carrying a block atom name only on blocks <= 14/15 atoms',
+    'metamorphic relation: (name, element, degree inside the residue) multisets are compared only when no extra atoms are attached - with extras two maximum '
+    'matches may attach the unrecognised atom to differently named atoms (symmetry), both are valid, and so may the bond to a neighbouring residue; '
+    'flagged / rebuilt counts and (name, element) always',
+    'the input molecule object must stay unchanged (run_molecule documents working on a copy)',
+    'any ERROR-level log record on these repairable inputs is a violation',
+]
+
+PARTS = [
+    Part('blocks', run, enumerate=_enumerate),
+    Part('presentations', run, strategy=_strategy, examples={'quick': 900, 'thorough': 24000}),
+]
